@@ -25,6 +25,7 @@ func main() {
 	out := flag.String("out", "", "trace file")
 	blocks := flag.Int("blocks", 44, "blocks per history")
 	verbose := flag.Bool("v", false, "print the result-code distribution")
+	demo := flag.Bool("demo", false, "scripted history reproducing the known findings")
 	flag.Parse()
 	if *out == "" {
 		fmt.Fprintln(os.Stderr, "-out required")
@@ -33,6 +34,11 @@ func main() {
 	r := gen.New(*seed)
 	t := gen.NewTrace(*out)
 	stats := map[string]int{}
+	if *demo {
+		s := newSim(*seed, r, t, 4, 2, 3)
+		s.demo()
+		*n = 0
+	}
 	for i := 0; i < *n; i++ {
 		B, W, E := int64(4), int64(2), int64(3)
 		switch r.Intn(4) {
